@@ -66,3 +66,23 @@ Example C08_example :
   field_wrap a = Pointer /\ field_json_tag a "id" = "id,omitempty" /\
   field_wrap (set_rro a true) = Plain /\ field_json_tag (set_rro a true) "id" = "id".
 Proof. vm_compute. repeat split. Qed.
+
+(** "option (... type-alias and compatibility switches) changes exactly what it documents and nothing else": how named
+    types are declared (cases_C08_alias ties [declared_as_alias] to the generated declarations). *)
+Theorem C08_alias_default : forall k,
+  declared_as_alias false false k = match k with KStruct | KEnum => false | _ => true end.
+Proof. exact alias_default. Qed.
+Print Assumptions C08_alias_default.
+
+Theorem C08_disable_type_aliases_for_array : forall old, declared_as_alias old true KArray = false.
+Proof. exact alias_disable_array_defines_arrays. Qed.
+Print Assumptions C08_disable_type_aliases_for_array.
+
+Theorem C08_frame_disable_type_aliases_for_array : forall old d k,
+  k <> KArray -> declared_as_alias old d k = declared_as_alias old false k.
+Proof. exact alias_frame_disable_array. Qed.
+Print Assumptions C08_frame_disable_type_aliases_for_array.
+
+Theorem C08_old_aliasing_defines_everything : forall d k, declared_as_alias true d k = false.
+Proof. exact alias_old_aliasing_defines_everything. Qed.
+Print Assumptions C08_old_aliasing_defines_everything.
